@@ -8,6 +8,7 @@ package retry
 
 import (
 	"context"
+	"math"
 	"net/http"
 	"strconv"
 	"strings"
@@ -86,8 +87,8 @@ func (c Config) Validate() Config {
 		validated.InitialBackoff = MaxInitialBackoff
 	}
 
-	// Clamp BackoffFactor to reasonable range
-	if validated.BackoffFactor < MinBackoffFactor {
+	// Clamp BackoffFactor to reasonable range (NaN compares false with everything: treat it as too small)
+	if validated.BackoffFactor < MinBackoffFactor || math.IsNaN(validated.BackoffFactor) {
 		validated.BackoffFactor = MinBackoffFactor
 	} else if validated.BackoffFactor > MaxBackoffFactor {
 		validated.BackoffFactor = MaxBackoffFactor
